@@ -755,7 +755,7 @@ def run(ctx):
     if ctx.replay_cases:
         cases = [(c["kind"], with_history(c["tree"], c["history"]) if c.get("history") else c["tree"], c["old"], c.get("new"),
                   ("replay", c.get("offset_arg"), c.get("root_spelling")))
-                 for c in ctx.replay_cases if "kind" in c] + cases
+                 for c in map(c18.redangle, ctx.replay_cases) if "kind" in c] + cases
     for _ in range(int(ctx.n(800, 12500) * SCALE)):
         g = rng.random()
         if g < 0.12:
